@@ -1,5 +1,5 @@
 use crate::zx::sound::sample::{SampleGenerator, SoundSample};
-use aym::{AyMode, AymBackend, AymPrecise, SoundChip};
+use aym::{AyMode, AymBackend, AymPrecise, SoundChip, AY_REGISTER_COUNT};
 
 /// AY chip runs on the same frequency on 128K, 2+, 3+
 const AY_FREQ: usize = 1773400;
@@ -54,6 +54,12 @@ impl ZXAyChip {
 
     pub fn set_regs(&mut self, regs: &[u8]) {
         self.regs.copy_from_slice(&regs[..16]);
+        // Sound generator needs new values too, `regs` is only a copy for reading them back
+        // (R14, R15 are IO ports). Write to R13 restarts envelope, which is expected for
+        // the chip put in this state
+        for (reg, value) in self.regs.iter().enumerate().take(AY_REGISTER_COUNT) {
+            self.ay.write_register(reg as u8, *value);
+        }
     }
 }
 
